@@ -22,6 +22,13 @@ pub struct TaskLockState {
     pub name: String,
     pub holds: Vec<String>,
     pub wants: Option<String>,
+    #[serde(default)]
+    pub holds_ids: Vec<usize>,
+    #[serde(default)]
+    pub wants_id: Option<usize>,
+    /// task that owns the wanted lock
+    #[serde(default)]
+    pub blocked_by: Option<usize>,
 }
 
 #[derive(Clone, Debug, Serialize, Deserialize, PartialEq)]
@@ -91,7 +98,15 @@ fn install_panic_hook() {
 fn lock_states() -> Vec<TaskLockState> {
     rec::lock_state()
         .into_iter()
-        .map(|(task, name, held, w)| TaskLockState { task, name, holds: held.iter().map(|s| s.to_string()).collect(), wants: w.map(|s| s.to_string()) })
+        .map(|(task, name, held, w)| TaskLockState {
+            task,
+            name,
+            holds: held.iter().map(|s| s.1.to_string()).collect(),
+            wants: w.map(|s| s.1.to_string()),
+            holds_ids: held.iter().map(|s| s.0).collect(),
+            wants_id: w.map(|s| s.0),
+            blocked_by: w.and_then(|s| s.2),
+        })
         .collect()
 }
 
